@@ -1,4 +1,6 @@
 """C03 — merged stream is chronological, complete, duplicate-free; peek never consumes."""
+import re
+
 from ..facts import walk, strip, strip_casts, lv, show, writes, calls, int_value, root_var, table_py
 from ..flow import MustFacts, cond_atoms
 from ..q import (Site, call_sites, indirect_call_sites, site_before, forward_scan, backward_scan, const_eval, edge_start, elem_has_call)
@@ -579,6 +581,41 @@ def r03_3b(prog, rep):
         rep.fail(rid, "__make_evrrul/pointer-array-offset", f.loc(), "the pointer array no longer starts at this + nr")
 
 
+def r03_4(prog, rep):
+    """Sibling completeness: every rule stream of the shared allocation starts with all the state the first one is given."""
+    rid = "R03.4"
+    f = prog.fn("__make_evrrul", "evical.c")
+    cfg = f.cfg
+    f0, fi = set(), set()
+    whole = False
+    idxvar = None
+    for b, i, x, line in cfg.all_elems():
+        for l, kind, n in writes(cfg.resolve(x)):
+            t = lv(l)
+            if t.startswith("this->"):
+                f0.add(t[len("this->"):].split(".")[0])
+            m = re.match(r"^this\[(\w+)\](\.(\w+))?", t)
+            if m and m.group(1) != "0":
+                idxvar = m.group(1)
+                if m.group(3):
+                    fi.add(m.group(3))
+                elif n.get("k") == "bin" and n["op"] == "=" and lv(n["r"]) in ("this[0]", "*this"):
+                    whole = True
+    if not f0 or idxvar is None:
+        rep.fail(rid, "__make_evrrul/sibling-streams", f.loc(), "cannot identify the initialisation of the first and of the further rule streams")
+        return
+    per_stream = {"rrul", "seq"}
+    missing = set() if whole else (f0 - fi - {"ref"})
+    if whole and per_stream <= fi:
+        rep.ok(rid, "__make_evrrul/sibling-streams", f.loc(), "streams 1..n-1 copy stream 0 whole, then set their own %s" % sorted(per_stream))
+    elif not whole and not missing and per_stream <= fi:
+        rep.ok(rid, "__make_evrrul/sibling-streams", f.loc(), "streams 1..n-1 set every field stream 0 is given: %s" % sorted(f0))
+    else:
+        rep.fail(rid, "__make_evrrul/sibling-streams", f.loc(),
+                 "rule streams 1..n-1 of a multi-RRULE event are not given %s, which stream 0 is given (proto offset/zone/scale decide where their occurrences land)" % (
+                     sorted(missing) or sorted(per_stream - fi)))
+
+
 def run(prog, rep, tier, snap):
     rep.rule("R03.1", "peek purity of every stream class in scope", 5)
     r03_1(prog, rep)
@@ -587,4 +624,6 @@ def run(prog, rep, tier, snap):
     rep.rule("R03.3", "allocation sizes of the mux constructors and of the shared RRULE allocation", 6)
     r03_3(prog, rep)
     r03_3b(prog, rep)
+    rep.rule("R03.4", "all rule streams of one event start from the same proto state", 1)
+    r03_4(prog, rep)
 READY = True
